@@ -302,6 +302,8 @@ def float_to_int(data, digits: Optional[Integer] = None) -> NDArray[np.int64]:
         digits = util.decimal_to_digits(tol.merge)
     elif not isinstance(digits, (int, np.integer)):
         raise TypeError("Digits must be `None` or `int`, not `{type(digits)}`")
+    # a numpy integer would overflow (or refuse) as an exponent
+    digits = int(digits)
 
     # multiply by requested power of ten
     # then subtract small epsilon to avoid "go either way" rounding
@@ -452,7 +454,8 @@ def merge_runs(data: ArrayLike, digits: Optional[Integer] = None):
     if digits is None:
         epsilon = tol.merge
     else:
-        epsilon = 10 ** (-digits)
+        # not a numpy integer: it would refuse a negative exponent
+        epsilon = 10.0 ** (-int(digits))
 
     data = np.asanyarray(data)
     if len(data) == 0:
